@@ -3,6 +3,7 @@ import ChiDriver.C01
 import ChiDriver.C08
 import ChiDriver.C02
 import ChiDriver.C03
+import ChiDriver.C19
 namespace ChiDriver
-def allOps : List (String × Op) := C04.ops ++ C01.ops ++ C08.ops ++ C02.ops ++ C03.ops
+def allOps : List (String × Op) := C04.ops ++ C01.ops ++ C08.ops ++ C02.ops ++ C03.ops ++ C19.ops
 end ChiDriver
